@@ -165,7 +165,11 @@ def rs_rule(p, r, nm):
                 elif a[0] == "b": al.append(nm.var(a[1]))
                 else: al.append(rs_ex(a[1], sc, nm, cty))
             pat = "()" if not outs else nm.var(outs[0])
-            parts.append(f"agg {pat} = {fn}({', '.join(nm.var(b) for b in bound)}) in {nm.rel(rel)}({', '.join(al)})")
+            if fn == "not" and not outs and not bound and (rel + len(parts)) % 2 == 0:
+                # the surface spelling of the same item (documented: `!rel(args)` is `agg () = not() in rel(args)`), on every second occurrence
+                parts.append(f"!{nm.rel(rel)}({', '.join(al)})")
+            else:
+                parts.append(f"agg {pat} = {fn}({', '.join(nm.var(b) for b in bound)}) in {nm.rel(rel)}({', '.join(al)})")
             for o in outs: sc.bind(o, "val", "usize" if fn == "count" else "int")
         else:
             parts.append(rs_cond(it, sc, nm))
